@@ -38,6 +38,10 @@ class _Throw(Exception):
         self.v = v
 
 
+class _Truncated(Exception):
+    pass
+
+
 class _Break(Exception):
     pass
 
@@ -220,6 +224,8 @@ class Interp:
                 p.outcome = ("return", v)
             except _Throw as t:
                 p.outcome = ("throw", t.ty)
+            except _Truncated:
+                p.outcome = ("truncated",)
             except NeedDecision as nd:
                 stack.append(pre + [(nd.atom, False)])
                 stack.append(pre + [(nd.atom, True)])
@@ -370,7 +376,7 @@ class Interp:
                     break
                 if n >= self.cfg.loop_bound:
                     self.event("loop-bound", [], unit.loc(s.get("loc")))
-                    break
+                    raise _Truncated()
                 n += 1
                 try:
                     self.exec_stmt(unit, s.get("body"), Env(env), this)
@@ -394,7 +400,7 @@ class Interp:
                         break
                 if n >= self.cfg.loop_bound:
                     self.event("loop-bound", [], unit.loc(s.get("loc")))
-                    break
+                    raise _Truncated()
                 n += 1
                 try:
                     self.exec_stmt(unit, s.get("body"), Env(inner), this)
@@ -428,7 +434,7 @@ class Interp:
                         break
                     if n >= self.cfg.loop_bound:
                         self.event("loop-bound", [], unit.loc(s.get("loc")))
-                        break
+                        raise _Truncated()
                     ev = ("elem", rng, n)
                 n += 1
                 inner = Env(env)
@@ -765,6 +771,11 @@ class Interp:
             if not n.get("args"):
                 return ("k", None)
             return self.eval(unit, n["args"][0], env, this)
+        if d.get("assign_kind") in ("copy", "move") and n.get("recv") is not None and len(n.get("args", [])) == 1:
+            # value semantics: assignment of a whole object replaces the abstract value
+            v = self.eval(unit, n["args"][0], env, this)
+            self.store(unit, n["recv"], v, env, this)
+            return v
         recv = self.eval(unit, n["recv"], env, this) if n.get("recv") is not None else None
         if n.get("arrow") and isinstance(recv, tuple) and recv and recv[0] in ("iter", "addr"):
             recv = recv[1]
